@@ -1400,6 +1400,31 @@ func genC01Scope(p *Pkg) (string, error) {
 		}
 	}
 	fmt.Fprintf(&b, "def updateEnterBlockShape : String := %s\n", LeanString(shape))
+	// frame-slot addressing: every function of vm.go that indexes vm.stack relative to vm.sb beyond the fixed slots
+	// stack[sb] (this) and stack[sb-1] (callee)
+	var sites []string
+	for _, f := range p.Files {
+		for _, d := range f.Decls {
+			fd, ok := d.(*ast.FuncDecl)
+			if !ok || fd.Body == nil {
+				continue
+			}
+			recv, _ := c01recvInfo(fd)
+			ast.Inspect(fd.Body, func(n ast.Node) bool {
+				ix, ok := n.(*ast.IndexExpr)
+				if !ok || c01exprStr(ix.X) != "vm.stack" {
+					return true
+				}
+				is := c01exprStr(ix.Index)
+				if strings.HasPrefix(is, "vm.sb+") || (strings.HasPrefix(is, "vm.sb-") && is != "vm.sb-1") {
+					sites = append(sites, recv+"."+fd.Name.Name+":"+is)
+				}
+				return true
+			})
+		}
+	}
+	sort.Strings(sites)
+	fmt.Fprintf(&b, "def slotAccessSites : List String := %s\n", c01leanStrList(sites))
 	b.WriteString("\nend GojaModel.C01.Gen\n")
 	return b.String(), nil
 }
